@@ -111,6 +111,7 @@ class ChildOperationExecutor(OperationExecutor[T]):
             checkpointed_result.is_succeeded()
             and checkpointed_result.is_replay_children()
         ):
+            self.state.raise_if_orphaned(self.operation_identifier.operation_id)
             return CheckResult.create_is_ready_to_execute(checkpointed_result)
 
         # Terminal failure
@@ -130,6 +131,10 @@ class ChildOperationExecutor(OperationExecutor[T]):
             self.state.create_checkpoint(
                 operation_update=start_operation, is_sync=False
             )
+        else:
+            # No START is sent for a context that already exists: stop an orphaned branch
+            # before the context function runs
+            self.state.raise_if_orphaned(self.operation_identifier.operation_id)
 
         # Ready to execute (checkpoint exists or was just created)
         return CheckResult.create_is_ready_to_execute(checkpointed_result)
